@@ -256,7 +256,18 @@ def h_keys(I, self):
     return PList(members(I, self))
 
 
+class NotText:
+    """class of a stored attribute value that is not a str (number, array, ...)"""
+
+
 def a_items(I, self):
+    if getattr(I, "ctx", None) is not None and I.ctx.env.get("typed_attr_values"):
+        # each stored attribute value is either a text (a symbolic str whose term is the stored value) or something else
+        out = []
+        for n in attr_members(I, self):
+            term = self.h.st.attr(self.h.node, name_term(I, n))
+            out.append((n, mk(term, "str") if I.path.choose(2, f"attr-{n}-is-text") else Opaque(f"attr[{n}]", term=term, cls=NotText)))
+        return PList(out)
     return PList([(n, Opaque(f"attr[{n}]", term=self.h.st.attr(self.h.node, name_term(I, n)))) for n in attr_members(I, self)])
 
 
